@@ -512,10 +512,14 @@ def shared_object_session(ctx):
     for k in runs:                                         # spread over the group, not only its beginning
         r = runs[k]; runs[k] = r[::2] + r[1::2]
     picked = []
-    while len(picked) < cap and any(runs.values()):
+    while len(picked) < cap // 2 and any(runs.values()):
         for k in sorted(runs):
-            if runs[k] and len(picked) < cap:
+            if runs[k] and len(picked) < cap // 2:
                 picked += runs[k].pop(0)
+    # the other half: runs of neighbouring cases across all operations (one object's constructor and methods, one key's
+    # derivations stay together), spread over the whole store
+    stride = max(1, len(ctx.replayable) // max(1, cap // 2))
+    picked += [i for i in range(len(ctx.replayable)) if (i // 25) % stride == 0][:cap // 2]
     sample = [ctx.replayable[i] for i in sorted(set(picked))][:cap]
     for line, proj, want in sample:
         if len(line) > 20000:
@@ -597,7 +601,7 @@ def interleave_session(ctx):
     keep = getattr(ctx, "keep", None)
     if not keep:
         return
-    budget = float(os.environ.get("VERIF_INTERLEAVE_S", "0") or 0) or (60.0 if ctx.thorough else 20.0 if getattr(ctx, "boost", False) else 5.0)
+    budget = float(os.environ.get("VERIF_INTERLEAVE_S", "0") or 0) or (60.0 if ctx.thorough else 25.0 if getattr(ctx, "boost", False) else 10.0)
     deep = ctx.thorough or getattr(ctx, "boost", False)
     interleave.session(ctx, keep, PROJ, budget * (0.6 if deep else 1.0), 40 if ctx.thorough else 14)
     if deep and not ctx.violations:
